@@ -23,6 +23,7 @@ RULES = [
     Rule('C04.R3', 'note instruments are the empty instrument or one of the 128 entries of a bank', 4),
     Rule('C04.R4', 'evacuation updates note and both chip channels, guarded by capacity and duplicate tests', 5),
     Rule('C04.R5', 'inserts into the fixed-capacity lists cannot overflow', 3),
+    Rule('C04.R7', 'OPN2::noteOn reaches its key-on write for every tone: no return before it except under a guard that cannot hold', 2),
     Rule('C04.R6', 'the chip-channel table is rebuilt only after every sounding note has been dropped', 3),
 ]
 EXPLANATION = ('CFG pairing rules (dominance, statement order, post-dominance with contradiction pruning) over the voice bookkeeping functions of '
@@ -259,4 +260,82 @@ def analyse(facts, tier):
     obls.append(Obl('C04.R6', pn.name, 'panic drops every active note at once', pn.loc, 'discharged' if okf else 'finding',
                     why='noteOff(channel, key, forceNow = true) for every channel and key' if okf else
                     'panic() defers the key-off of drum notes younger than the minimal drum time: such a note survives realTime_panic() and keeps references into the chip-channel table that is rebuilt next (use-after-free in find_user when its time runs out)'))
+    # ... and on resetMIDI() forgetting every note: the MIDI channel table is cleared (or panic runs) on every path through it
+    rm = facts.fn('OPNMIDIplay::resetMIDI')
+    hit = None
+    for b2, j2, st2 in rm.cfg.stmts():
+        for y in calls_in(st2['s']):
+            sn = short(callee_name(y))
+            if (sn == 'clear' and y.get('obj') is not None and mentions(y['obj'], member_named('m_midiChannels'))) or sn == 'realTime_panic':
+                if b2 == rm.cfg.entry or ('b', b2) in (rm.cfg.pdom().get(('b', rm.cfg.entry)) or ()):
+                    hit = st2['loc']
+    obls.append(Obl('C04.R6', rm.name, 'resetMIDI forgets every sounding note', hit or rm.loc, 'discharged' if hit else 'finding',
+                    why='m_midiChannels.clear() on every path: the active-note lists go with the channels' if hit else
+                    'resetMIDI() keeps the MIDIchannel objects (and their activenotes) alive: its callers rebuild the chip-channel table right after it, so the surviving notes refer to chip channels that no longer list them'))
+    obls += r7_keyon(facts)
     return obls
+
+
+def r7_keyon(facts):
+    """the user of a chip channel is registered by the caller before OPN2::noteOn runs: if noteOn returns without the key-on write
+    (register 0x28, 0xF0 | channel) the channel has a user and is keyed off.  Every return that is not dominated by the key-on write
+    must sit under `v < 0` with v the result of a function that returns std::exp(..) (never negative: the guard cannot hold)."""
+    out = []
+    fn = facts.fn('OPN2::noteOn')
+    kon = None
+    for b, j, st in fn.cfg.stmts():
+        for x in calls_in(st['s']):
+            a = x.get('a', [])
+            if short(callee_name(x)) == 'writeRegI' and len(a) >= 4 and const_of(a[2]) == 0x28 and any(const_of(y) == 0xF0 for y in walk(a[3])):
+                kon = (b, j, st)
+    if kon is None:
+        raise build.AnalysisBroken('C04.R7: key-on write (register 0x28, 0xF0 | channel) of OPN2::noteOn not found')
+    out.append(Obl('C04.R7', fn.name, 'key-on write', kon[2]['loc'], 'discharged', why='writeRegI(chip, 0, 0x28, 0xF0 + channel)', nontrivial=False))
+    def nonneg_source(v):
+        v = strip(v)
+        if v.get('k') != 'DeclRefExpr':
+            return False
+        defs = []
+        for b, j, st in fn.cfg.stmts():
+            if st['s'].get('k') == 'DeclStmt':
+                defs += [d['init'] for d in st['s']['decls'] if d['id'] == v.get('id') and d.get('init') is not None]
+            for x in walk(st['s']):
+                ap = assign_parts(x)
+                if ap and strip(ap[0]).get('id') == v.get('id'):
+                    defs.append(ap[1])
+        # the guard is evaluated right after the first definition; later clamps only lower the value
+        first = strip(defs[0]) if defs else None
+        if first is None or 'callee' not in first:
+            return False
+        for cf in facts.fns.get(callee_name(first), []):
+            rets = [strip(rst['s'].get('e')) for rb, rj, rst in cf.cfg.returns()]
+            if rets and all(r is not None and 'callee' in r and short(callee_name(r)) == 'exp' for r in rets):
+                return True
+        return False
+    # exits: explicit returns and the fall-through end
+    exits = []
+    for i, blk in fn.cfg.blocks.items():
+        if fn.cfg.exit in [x for x in blk['succ'] if x is not None] and i != fn.cfg.exit:
+            exits.append(i)
+    for i in exits:
+        blk = fn.cfg.blocks[i]
+        if i == kon[0] or fn.cfg.block_dominates(kon[0], i):
+            continue
+        last = blk['stmts'][-1] if blk['stmts'] else None
+        loc = last['loc'] if last else fn.loc
+        gf = guard_facts(fn, i, last) if last else []
+        ok = False
+        for f in gf:
+            if f[0] != 'cmp' or len(gf) != 1:
+                continue
+            def zero(e):
+                e = strip(e)
+                while e is not None and (e.get('k') or '').endswith('CastExpr'):
+                    e = strip(e.get('e'))
+                return e is not None and (const_of(e) == 0 or e.get('fc') == 0)
+            if (f[1] == '<' and zero(f[3]) and nonneg_source(f[2])) or (f[1] == '>' and zero(f[2]) and nonneg_source(f[3])):
+                ok = True
+        out.append(Obl('C04.R7', fn.name, 'return before the key-on write', loc, 'discharged' if ok else 'finding',
+                       why='guard %s cannot hold: the value is an exponential' % ' ; '.join(fact_str(f) for f in gf) if ok else
+                       'OPN2::noteOn returns under [%s] without writing the key-on: the caller has already registered the user, so the chip channel has a user and stays keyed off' % ' ; '.join(fact_str(f) for f in gf)[:120]))
+    return out
